@@ -44,13 +44,65 @@ def make_instrumentation(log, tag):
     return Rec()
 
 
-def make_instrumentations(log, k):
+HOOKS = ["on_query_start", "on_query_end", "on_parsing_start", "on_parsing_end", "on_validation_start",
+         "on_validation_end", "on_execution_start", "on_execution_end", "on_field_start", "on_field_end"]
+PARTIAL_TAG = 100
+
+
+def make_partial(log, tag, hooks):
+    """A member that overrides only some hooks (e.g. only on_field_end) and inherits the no-ops."""
+    from py_gql.execution import Instrumentation
+
+    full = make_instrumentation(log, tag)
+    ns = dict((h, getattr(type(full), h)) for h in hooks)
+    return type("Partial", (Instrumentation,), ns)()
+
+
+def partial_spec(rng, k):
+    """[(tag, hooks, position)] for 0-2 partial members stacked among k full ones."""
+    out = []
+    for i in range(rng.choice([0, 0, 1, 1, 2])):
+        hooks = rng.sample(HOOKS, rng.randint(1, 4)) if rng.random() < 0.6 else [rng.choice(HOOKS)]
+        out.append((PARTIAL_TAG + i, sorted(hooks), rng.randint(0, k)))
+    return out
+
+
+def make_instrumentations(log, k, partials=()):
     from py_gql.execution import MultiInstrumentation
 
     recs = [make_instrumentation(log, i) for i in range(k)]
-    if k == 1:
+    if k == 1 and not partials:
         return recs[0]
-    return MultiInstrumentation(*recs)
+    members = list(recs)
+    for tag, hooks, pos in partials:
+        members.insert(min(pos, len(members)), make_partial(log, tag, hooks))
+    return MultiInstrumentation(*members)
+
+
+def check_partials(events, partials):
+    """A member that overrides a hook receives exactly the firings of that hook that a full member
+    receives (same stage / edge / path multiset)."""
+    problems = []
+
+    def firings(tag):
+        out = {}
+        for e in events:
+            if e["ev"] in ("stage", "field") and e["tag"] == tag:
+                hook = "on_%s_%s" % (e["stage"] if e["ev"] == "stage" else "field", e["edge"])
+                out.setdefault(hook, []).append(e.get("path"))
+        return out
+
+    full = firings(0)
+    for tag, hooks, pos in partials:
+        mine = firings(tag)
+        for h in hooks:
+            if sorted(map(repr, mine.get(h, []))) != sorted(map(repr, full.get(h, []))):
+                problems.append(("partial-member:%s:firings-differ" % h,
+                                 "member overriding %r got %d firings, a full member %d" % (hooks, len(mine.get(h, [])), len(full.get(h, [])))))
+        for h in mine:
+            if h not in hooks:
+                problems.append(("partial-member:%s:unexpected" % h, repr(hooks)))
+    return problems
 
 
 def make_middleware(log, idx):
@@ -66,6 +118,7 @@ def check_stage_grammar(events, n_instr, crashed=False):
     """Returns a list of (key, detail) problems. Looks at instrumentation 0's view for grammar and
     at all of them for the stacking order."""
     problems = []
+    events = [e for e in events if e.get("tag", 0) < PARTIAL_TAG]
     view = [e for e in events if e["ev"] == "stage" and e["tag"] == 0]
     seq = [(e["stage"], e["edge"]) for e in view]
     counts = {}
